@@ -469,6 +469,7 @@ func runC03(c *Check) {
 
 	// ---- R10 (added after seeded round 2)
 	c.ruleRemoveReportsBody("R10")
+	c.ruleOwnStateReadAfterGate("R12")
 
 	// ---- R9 the gate discriminates
 	if fn := c.Fn("R9", "storage.(*TxRepository).Add"); fn != nil && unconf != nil {
